@@ -9,16 +9,20 @@ struct cds_lfq_queue_rcu Q;
 /* typed static pool behind malloc/free (stub_map): every unwinding copy of make_dummy would otherwise be a separate CBMC heap object.
  * free poisons the entry and checks single ownership; a later use of the poisoned links is a wild dereference that CBMC reports. */
 #define NPOOL 5
-struct cds_lfq_node_rcu_dummy POOL[NPOOL];
-void *my_malloc(size_t sz) { int k = (int)rt_gget(63); rt_assert(k < NPOOL && sz == sizeof(struct cds_lfq_node_rcu_dummy), "dummy pool large enough"); rt_gset(63, k + 1); return &POOL[k]; }
+struct cds_lfq_node_rcu_dummy PL0, PL1, PL2, PL3, PL4;
+static inline struct cds_lfq_node_rcu_dummy *PLP(int i) { return i == 0 ? &PL0 : i == 1 ? &PL1 : i == 2 ? &PL2 : i == 3 ? &PL3 : &PL4; }
+void *my_malloc(size_t sz) { int k = (int)rt_gget(63); rt_assert(k < NPOOL && sz == sizeof(struct cds_lfq_node_rcu_dummy), "dummy pool large enough"); rt_gset(63, k + 1); return PLP(k); }
 void my_free(void *p) {
-  int i = -1; for (int k = 0; k < NPOOL; k++) if (p == (void *)&POOL[k]) i = k;
+  int i = -1; for (int k = 0; k < NPOOL; k++) if (p == (void *)PLP(k)) i = k;
   rt_assert(i >= 0, "free() of a pointer that malloc() did not return");
   rt_assert(!((rt_gget(61) >> i) & 1), "double free of a dummy node");
   rt_gset(61, rt_gget(61) | (1u << i));
-  POOL[i].parent.next = (struct cds_lfq_node_rcu *)0x5a5a0; POOL[i].parent.dummy = 0x5a; POOL[i].q = (struct cds_lfq_queue_rcu *)0x5a5a8;
+  struct cds_lfq_node_rcu_dummy *d = PLP(i);
+  d->parent.next = (struct cds_lfq_node_rcu *)0x5a5a0; d->parent.dummy = 0x5a; d->q = (struct cds_lfq_queue_rcu *)0x5a5a8;
 }
-struct cds_lfq_node_rcu N[H_NN];
+/* separate objects (not arrays): a pointer into an array of structs with a non-constant index costs a byte-level extraction per access */
+struct cds_lfq_node_rcu N0, N1, N2, N3;
+static inline struct cds_lfq_node_rcu *NP(int i) { return i == 0 ? &N0 : i == 1 ? &N1 : i == 2 ? &N2 : &N3; }
 struct rcu_head *PEND[6]; void (*PFN[6])(struct rcu_head *);
 /* harness call_rcu: the callback runs after a grace period = in the epilogue, when every (ghost) read-side section has ended.
  * A dummy that the real code frees directly, or touches after handing it over, trips CBMC's deallocated-object checks. */
@@ -28,10 +32,10 @@ static void my_call_rcu(struct rcu_head *head, void (*func)(struct rcu_head *)) 
 }
 static inline int idx(struct cds_lfq_node_rcu *n) {
   if (n == 0) return H_NONE;
-  for (int i = 0; i < H_NN; i++) if (n == &N[i]) return i;
+  for (int i = 0; i < H_NN; i++) if (n == NP(i)) return i;
   rt_assert(0, "dequeue returned a pointer that is not a user node (dummy leaked to the user)"); return H_NONE;
 }
-static inline void enq(int i) { h_ins_call(i); cds_lfq_node_init_rcu(&N[i]); cds_lfq_enqueue_rcu(&Q, &N[i]); h_ins_ret(i, 0); }
+static inline void enq(int i) { h_ins_call(i); cds_lfq_node_init_rcu(NP(i)); cds_lfq_enqueue_rcu(&Q, NP(i)); h_ins_ret(i, 0); }
 static inline int deq(int j) { uint32_t c = h_rem_call(); struct cds_lfq_node_rcu *n = cds_lfq_dequeue_rcu(&Q); int v = idx(n); h_rem_ret(j, c, v); return v; }
 void prologue(void) { cds_lfq_init_rcu(&Q, my_call_rcu); }
 #if SCEN == 1
